@@ -42,3 +42,11 @@ Example C05_example :
   match run_ops (st0 2 false) [OAppend 0%N 0; OAppend 1%N 1; OInsert 2%N (Some 1%N); OAssoc 2%N [Some 0%N; Some 1%N]; OAssocChars] with
   | Ok st => map (fun c => (c_before c, c_after c)) (st_cinfo st) = [(0, 1); (1, 2)] | Err _ => False end.
 Proof. vm_compute. reflexivity. Qed.
+
+(* tie A for the representation the theorems above assume: associations are character / slot INDICES kept as unbounded numbers in the
+   models; in the code they live in fields whose narrowest width is regenerated from src/inc/Slot.h and src/inc/CharInfo.h -- wide enough
+   that every index below 2^31 (the accessors return int) is stored and read back unchanged, whatever the length of the text. *)
+From GR Require Import Gen.GenLoop Proofs.GenAgreeLoop.
+Theorem C05_association_fields_hold_every_index : forall i : N, (i < 2 ^ 31)%N -> (i mod 2 ^ GenLoop.assoc_index_bits = i)%N /\ (31 < GenLoop.assoc_index_bits)%N.
+Proof. exact gen_assoc_index_roundtrip. Qed.
+Print Assumptions C05_association_fields_hold_every_index.
